@@ -54,22 +54,24 @@ mod set_reach__runpar;
 mod cp__to;
 mod bool_lat__ser;
 mod lat_multi_improve__pari;
-mod count_paths__gen;
-mod neg_basic__ser;
-mod neg_basic__src2;
-mod neg_basic__permpar;
-mod agg_depth__pari;
+mod count_paths__run;
+mod count_paths__runpar;
+mod neg_basic__mrt;
+mod neg_basic__srcpar;
+mod agg_minmaxsum__par;
+mod agg_lattice__par;
 mod neg_rec_after__par;
 mod agg_empty__par;
-mod disj__src0;
-mod disj__perm2;
-mod disj_nested__exp;
-mod rep_expr__par;
-mod multi_head_disj__exppar;
-mod mac_basic__pari;
-mod mac_basic__init;
-mod mac_capture__exp;
-mod mac_disj__par;
+mod disj__topar;
+mod disj__init;
+mod disj__exppar;
+mod pat_args__pari;
+mod multi_head_disj__ser;
+mod neg_in_disj__exp;
+mod mac_basic__mrt;
+mod mac_basic__srcpar;
+mod mac_nested__ser;
+mod mac_disj__exp;
 
 fn lookup(name: &str) -> fn() -> Box<dyn Driven> {
    match name {
@@ -119,22 +121,24 @@ fn lookup(name: &str) -> fn() -> Box<dyn Driven> {
       "cp__to" => cp__to::make,
       "bool_lat__ser" => bool_lat__ser::make,
       "lat_multi_improve__pari" => lat_multi_improve__pari::make,
-      "count_paths__gen" => count_paths__gen::make,
-      "neg_basic__ser" => neg_basic__ser::make,
-      "neg_basic__src2" => neg_basic__src2::make,
-      "neg_basic__permpar" => neg_basic__permpar::make,
-      "agg_depth__pari" => agg_depth__pari::make,
+      "count_paths__run" => count_paths__run::make,
+      "count_paths__runpar" => count_paths__runpar::make,
+      "neg_basic__mrt" => neg_basic__mrt::make,
+      "neg_basic__srcpar" => neg_basic__srcpar::make,
+      "agg_minmaxsum__par" => agg_minmaxsum__par::make,
+      "agg_lattice__par" => agg_lattice__par::make,
       "neg_rec_after__par" => neg_rec_after__par::make,
       "agg_empty__par" => agg_empty__par::make,
-      "disj__src0" => disj__src0::make,
-      "disj__perm2" => disj__perm2::make,
-      "disj_nested__exp" => disj_nested__exp::make,
-      "rep_expr__par" => rep_expr__par::make,
-      "multi_head_disj__exppar" => multi_head_disj__exppar::make,
-      "mac_basic__pari" => mac_basic__pari::make,
-      "mac_basic__init" => mac_basic__init::make,
-      "mac_capture__exp" => mac_capture__exp::make,
-      "mac_disj__par" => mac_disj__par::make,
+      "disj__topar" => disj__topar::make,
+      "disj__init" => disj__init::make,
+      "disj__exppar" => disj__exppar::make,
+      "pat_args__pari" => pat_args__pari::make,
+      "multi_head_disj__ser" => multi_head_disj__ser::make,
+      "neg_in_disj__exp" => neg_in_disj__exp::make,
+      "mac_basic__mrt" => mac_basic__mrt::make,
+      "mac_basic__srcpar" => mac_basic__srcpar::make,
+      "mac_nested__ser" => mac_nested__ser::make,
+      "mac_disj__exp" => mac_disj__exp::make,
       _ => panic!("no such program variant in this shard: {}", name),
    }
 }
